@@ -40,13 +40,14 @@ func InitGenesis(ctx sdk.Ctx, keeper keeper.Keeper, supplyKeeper types.AuthKeepe
 			log.Fatalf(fmt.Sprintf("error setting the coins for module account: %s module account", types.StakedPoolName))
 		}
 		supplyKeeper.SetModuleAccount(ctx, stakedPool)
+		// the coins were created here, so add them to the total supply
+		keeper.AccountKeeper.SetSupply(ctx, keeper.AccountKeeper.GetSupply(ctx).Inflate(stakedCoins))
 	} else {
+		// provided on genesis: the supply set by the auth module already includes the pool balance
 		if !stakedPool.GetCoins().IsEqual(stakedCoins) {
 			log.Fatal(fmt.Errorf("%s module account total does not equal the amount in each application account", types.StakedPoolName))
 		}
 	}
-	// add coins to the total supply
-	keeper.AccountKeeper.SetSupply(ctx, keeper.AccountKeeper.GetSupply(ctx).Inflate(stakedCoins))
 	// set the params set in the keeper
 	keeper.Paramstore.SetParamSet(ctx, &data.Params)
 }
